@@ -302,3 +302,66 @@ Proof.
   intros r t n r1 l1 Hrep E. pose proof (sbytes_le n).
   exact (mbap_represents_step r t n (run_fuel r n) r1 l1 Hrep ltac:(unfold run_fuel; lia) E).
 Qed.
+
+(* ================================================================================================
+   The client ends the connection at a malformed header (tie: Gen/ClientFatal.v, regenerated from
+   client/task.rs SessionError::from_request_err)
+   ================================================================================================ *)
+From Rodbus Require Import Gen.ClientFatal.
+
+Definition kind_of_ferr (e : ferr) : option frame_error_kind :=
+  match e with
+  | UnknownProtocolId _ => Some FkUnknownProtocolId
+  | FrameLengthTooBig _ _ => Some FkFrameLengthTooBig
+  | MbapLengthZero => Some FkMbapLengthZero
+  | UnknownFunctionCode _ => Some FkUnknownFunctionCode
+  | CrcValidationFailure _ _ => Some FkCrcValidationFailure
+  | InternalError => None
+  end.
+(* ClientLoop::run returns (the connection ends) as soon as poll / run_one_request yields an error that
+   from_request_err maps to a session error *)
+Definition client_connection_survives (e : ending) : bool :=
+  match e with
+  | EndBad fe => match kind_of_ferr fe with Some k => negb (frame_error_ends_session k) | None => true end
+  | EndIo _ => negb io_error_ends_session
+  | _ => true
+  end.
+
+Theorem client_framing_errors_fatal : (forall k, frame_error_ends_session k = true) /\ io_error_ends_session = true.
+Proof. split; [intros k; destruct k; reflexivity|reflexivity]. Qed.
+
+Lemma client_never_survives_a_framing_error e : e <> InternalError -> client_connection_survives (EndBad e) = false.
+Proof.
+  intros Hne. unfold client_connection_survives. destruct (kind_of_ferr e) as [k|] eqn:E.
+  - now rewrite (proj1 client_framing_errors_fatal k).
+  - destruct e; try discriminate. congruence.
+Qed.
+
+(* the three kinds of malformed MBAP header, wherever they occur in the stream and however it is cut: the reader
+   reports the error exactly there (tcp_reject) and the client ends the connection on it, so nothing behind the
+   header is ever interpreted on that connection (the next connection starts from a reset reader: C05_client) *)
+Theorem client_ends_at_malformed_header : forall pre fs h rest chunks fi,
+  framed pre fs -> bad_header h -> concat chunks = pre ++ h ++ rest -> nonempty_chunks chunks ->
+  exists e, run_session KTcp false chunks fi = (map IFrame fs, EndBad e) /\ client_connection_survives (EndBad e) = false.
+Proof.
+  intros pre fs h rest chunks fi Hfr Hbad Hs Hne.
+  destruct (tcp_reject pre fs h rest chunks fi Hfr Hbad Hs Hne) as (e & Hni & Hrun).
+  exists e. split; [exact Hrun|now apply client_never_survives_a_framing_error].
+Qed.
+
+(* ================================================================================================
+   Error exits of MbapParser::parse and the parser state (seeded c07_5 is about the RTU parser)
+   ================================================================================================ *)
+(* every error exit of the MBAP parser leaves it in Begin: parse_header fails BEFORE `self.state = Header(..)`,
+   and the Header arm has no error exit (cursor.read(adu_length) cannot fail after the length check). So
+   next_frame's `parser.reset()` on error is a no-op for MBAP: there is no stale-state analogue of the RTU case *)
+Theorem mbap_error_leaves_begin : forall st b st' b' e, wf b -> st_ok st -> mbap_parse st b = (st', b', Err e) -> st' = Begin.
+Proof.
+  intros st b st' b' e Hwf Hst Ep. rewrite (mbap_parse_eq _ _ Hwf Hst) in Ep.
+  destruct (sparse st b) as [[s0 b0] r0] eqn:Es. destruct r0; inversion Ep; subst.
+  destruct st as [|tx u n]; cbn [sparse] in Es.
+  - destruct (Nat.ltb (buf_len b) 7); [discriminate|].
+    destruct (hdr _) as [[[tx u] n]|e0]; [|inversion Es; reflexivity].
+    unfold sbody in Es. destruct (Nat.ltb _ _); discriminate.
+  - unfold sbody in Es. destruct (Nat.ltb _ _); discriminate.
+Qed.
